@@ -16,18 +16,20 @@ for d in seeded/$pat/; do
   also=$(python3 -c "import json;print(' '.join(json.load(open('$d/meta.json')).get('also_check',[])))")
   git -C "$wt" checkout -q -- . && git -C "$wt" clean -fdq
   if ! git -C "$wt" apply "/verif/$d/patch.diff" 2>/dev/null; then echo "$id: PATCH DOES NOT APPLY"; continue; fi
-  res=""
+  res=""; sigs=""
   for p in $prop $also; do
     CRDSIM_REPO="$wt" VERIF_SEED=${VERIF_SEED:-1} ./bin/check "$p" quick > /tmp/regress.$id.$p.log 2>&1
     code=$?
     n=$(grep -c '^VIOLATION' /tmp/regress.$id.$p.log)
     res="$res $p:exit=$code,viol=$n"
+    [ -n "$SIG" ] && sigs="$sigs $(grep -E 'signature:|unsupported|crdsim: (type|go build)' /tmp/regress.$id.$p.log | sed 's/.*signature: *//' | cut -c1-160 | sort -u | head -6 | tr '\n' ';')"
   done
   case "$res" in
     *exit=1*) echo "$id: caught$res" ;;
     *exit=2*) echo "$id: EXIT2$res" ;;
     *) echo "$id: MISSED$res" ;;
   esac
+  [ -n "$SIG" ] && echo "   $sigs"
   rm -f /tmp/regress.$id.*.log
 done
 rm -rf "$CRDSIM_OUT"
